@@ -318,6 +318,45 @@ func semaRound(r *result, rnd *rand.Rand, n uint) bool {
 		r.count("sema_cancel_storms", 600)
 		_ = spin
 	}
+	// 7. more Releases at once than slots are taken: none of them blocks, and afterwards the semaphore
+	// still admits exactly n holders (a Release that waits for a token would swallow a later holder's)
+	if n >= 1 {
+		for it := 0; it < 20; it++ {
+			s7 := syncutil.NewChanSemaphore(n)
+			_ = s7.Acquire(context.Background())
+			var rel sync.WaitGroup
+			var go7 sync.WaitGroup
+			go7.Add(1)
+			for k := 0; k < 4; k++ {
+				rel.Add(1)
+				go func() {
+					defer rel.Done()
+					go7.Wait()
+					s7.Release()
+				}()
+			}
+			go7.Done()
+			if !waitTimeout(&rel, time.Second) {
+				r.violate("ChanSemaphore(cap %d): a Release blocked (4 Releases at once, one slot taken)", n)
+				return false
+			}
+			for i := uint(0); i < n; i++ {
+				c7, cf := context.WithTimeout(context.Background(), 200*time.Millisecond)
+				err := s7.Acquire(c7)
+				cf()
+				if err != nil {
+					r.violate("ChanSemaphore(cap %d): after surplus Releases only %d slots can be taken", n, i)
+					return false
+				}
+			}
+			c7, cf := context.WithTimeout(context.Background(), 2*time.Millisecond)
+			if err := s7.Acquire(c7); err == nil {
+				r.violate("ChanSemaphore(cap %d): after surplus Releases more than %d Acquires succeed", n, n)
+			}
+			cf()
+		}
+		r.count("sema_surplus_releases", 20)
+	}
 	r.count("sema_rounds", 1)
 	r.count("sema_max_holders_seen", int(maxHolders.Load()))
 	return true
